@@ -6,8 +6,8 @@ use crate::model::*;
 use crate::vfail;
 use ckb_db::iter::{DBIterator, IteratorMode};
 use ckb_db_schema::{
-    COLUMN_CELL, COLUMN_CELL_DATA, COLUMN_CELL_DATA_HASH, COLUMN_INDEX, COLUMN_TRANSACTION_INFO, COLUMN_UNCLES,
-    Col,
+    COLUMN_CELL, COLUMN_CELL_DATA, COLUMN_CELL_DATA_HASH, COLUMN_INDEX, COLUMN_META, COLUMN_TRANSACTION_INFO,
+    COLUMN_UNCLES, Col, META_CURRENT_EPOCH_KEY, META_TIP_HEADER_KEY,
 };
 use ckb_snapshot::Snapshot;
 use ckb_store::ChainStore;
@@ -32,13 +32,16 @@ pub fn check_snapshot(snap: &Snapshot, tree: &Tree, where_: &str, st: &mut Stats
     let Some(mtip) = tree.blocks.get(&tip) else {
         vfail!("state:tip-unknown-to-model", "{where_}: snapshot tip {tip} is not a block of the generated tree");
     };
-    // --- snapshot self-consistency
-    let stored_tip = snap.get_tip_header();
-    if stored_tip.as_ref().map(|h| h.hash()) != Some(tip.clone()) {
+    // --- snapshot self-consistency.  `Snapshot` answers get_tip_header / get_current_epoch_ext
+    // from its own fields, so the persisted records (what the next start loads) are read raw.
+    let stored_tip = snap
+        .get(COLUMN_META, META_TIP_HEADER_KEY)
+        .map(|raw| packed::Byte32Reader::from_slice_should_be_ok(raw.as_ref()).to_entity());
+    if stored_tip != Some(tip.clone()) {
         vfail!(
             "snapshot:tip-header-differs-from-stored-tip",
-            "{where_}: snapshot.tip_header() = {tip} but get_tip_header() = {:?}",
-            stored_tip.map(|h| h.hash())
+            "{where_}: snapshot.tip_header() = {tip} but the stored tip record is {:?}",
+            stored_tip
         );
     }
     let ext = snap.get_block_ext(&tip);
@@ -50,8 +53,16 @@ pub fn check_snapshot(snap: &Snapshot, tree: &Tree, where_: &str, st: &mut Stats
             ext.map(|e| e.total_difficulty)
         );
     }
-    if snap.get_current_epoch_ext().as_ref() != Some(snap.epoch_ext()) {
-        vfail!("snapshot:epoch-ext-differs-from-stored-current-epoch", "{where_}: snapshot.epoch_ext() != get_current_epoch_ext()");
+    let stored_epoch: Option<ckb_types::core::EpochExt> = snap
+        .get(COLUMN_META, META_CURRENT_EPOCH_KEY)
+        .map(|raw| packed::EpochExtReader::from_slice_should_be_ok(raw.as_ref()).into());
+    if stored_epoch.as_ref() != Some(snap.epoch_ext()) {
+        vfail!(
+            "snapshot:epoch-ext-differs-from-stored-current-epoch",
+            "{where_}: snapshot.epoch_ext() = {:?} but the stored current-epoch record is {:?}",
+            snap.epoch_ext(),
+            stored_epoch
+        );
     }
     if snap.epoch_ext() != &mtip.epoch {
         vfail!(
@@ -259,6 +270,18 @@ pub fn compare_stores(a: &Snapshot, b: &Snapshot, tree: &Tree, where_: &str) -> 
     let tip = a.tip_hash();
     if tip != b.tip_hash() {
         vfail!("twin:tip", "{where_}: tips differ {} vs {}", tip, b.tip_hash());
+    }
+    for (name, key) in [("tip-record", META_TIP_HEADER_KEY), ("current-epoch-record", META_CURRENT_EPOCH_KEY)] {
+        let ra = a.get(COLUMN_META, key).map(|v| v.as_ref().to_vec());
+        let rb = b.get(COLUMN_META, key).map(|v| v.as_ref().to_vec());
+        if ra != rb {
+            vfail!(
+                format!("twin:{name}"),
+                "{where_}: persisted {name} differs between the reorged node and the linear replay: {:?} vs {:?}",
+                ra.map(|v| hex(&v)),
+                rb.map(|v| hex(&v))
+            );
+        }
     }
     for blk in tree.path(&tip) {
         let ea = a.get_block_ext(&blk.hash);
